@@ -117,7 +117,7 @@ func c07(repo string, out *fg.Out) error {
 		if !ok {
 			return true
 		}
-		if c, ok := is.Cond.(*ast.CallExpr); ok && fg.CalleeName(c) == "HasFlushFailure" {
+		if c, ok := is.Cond.(*ast.CallExpr); ok && fg.CalleeName(c) == "HasFlushFailure" && is.Else != nil {
 			tickIf = is
 			nIf++
 		}
@@ -156,6 +156,18 @@ func c07(repo string, out *fg.Out) error {
 	if resetGuarded {
 		return fmt.Errorf("ResetFlushFailure is now guarded by RecoveredFiles: the model's tick needs an update")
 	}
+	resetClean := false
+	ast.Inspect(tickIf.Body, func(n ast.Node) bool {
+		is, ok := n.(*ast.IfStmt)
+		if !ok {
+			return true
+		}
+		ct := strings.Join(strings.Fields(mainF.Text(is.Cond)), "")
+		if strings.Contains(ct, "CorruptedEntries==0") && contains(mainF, is.Body, "ResetFlushFailure") {
+			resetClean = true
+		}
+		return true
+	})
 	// purge argument is safeAge in both branches
 	for _, c := range fg.CallsNamed(tickIf, "PurgeOlderThan") {
 		if len(c.Args) != 1 || selText(c.Args[0]) != "safeAge" {
@@ -247,6 +259,7 @@ func c07(repo string, out *fg.Out) error {
 		Action   string `json:"action"`
 	}
 	var regs []reg
+	purgeGuarded := false
 	want := map[string]string{"arrow-buffer": "bufClose", "wal": "walClose", "wal-purge": "purgeAll"}
 	var rerr error
 	ast.Inspect(mainFn, func(n ast.Node) bool {
@@ -277,12 +290,32 @@ func c07(repo string, out *fg.Out) error {
 			return false
 		}
 		kind := "component"
+		if name == "wal-purge" {
+			if !contains(mainF, c.Args[1], "PurgeAll") {
+				rerr = fmt.Errorf("wal-purge no longer calls PurgeAll")
+			}
+			// skipped while a flush failure is pending: an if on HasFlushFailure() that returns before PurgeAll
+			ast.Inspect(c.Args[1], func(m ast.Node) bool {
+				if is, ok := m.(*ast.IfStmt); ok && contains(mainF, is.Cond, "HasFlushFailure") {
+					for _, pc := range fg.CallsNamed(c.Args[1], "PurgeAll") {
+						hasRet := false
+						ast.Inspect(is.Body, func(x ast.Node) bool {
+							if _, ok := x.(*ast.ReturnStmt); ok {
+								hasRet = true
+							}
+							return true
+						})
+						if is.End() < pc.Pos() && hasRet {
+							purgeGuarded = true
+						}
+					}
+				}
+				return true
+			})
+		}
 		if nm == "RegisterHook" {
 			kind = "hook"
-			if name == "wal-purge" && !contains(mainF, c.Args[1], "PurgeAll") {
-				rerr = fmt.Errorf("wal-purge hook no longer calls PurgeAll")
-			}
-		} else {
+		} else if name != "wal-purge" {
 			arg := selText(c.Args[1])
 			if (name == "arrow-buffer" && arg != "arrowBuffer") || (name == "wal" && arg != "walWriter") {
 				rerr = fmt.Errorf("component %s registered with %s", name, arg)
@@ -542,9 +575,20 @@ func c07(repo string, out *fg.Out) error {
 	if err != nil {
 		return err
 	}
-	if strings.Contains(aw.Text(cl.Body), "flushQueue") {
-		return fmt.Errorf("ArrowBuffer.Close now touches flushQueue: the model's bufClose needs an update")
+	clText := strings.Join(strings.Fields(aw.Text(cl.Body)), "")
+	if strings.Contains(clText, "<-b.flushQueue") || strings.Contains(clText, "rangeb.flushQueue") || strings.Contains(clText, "close(b.flushQueue)") {
+		return fmt.Errorf("ArrowBuffer.Close now drains / closes flushQueue: the model's bufClose needs an update")
 	}
+	closeDropSetsFlag := false
+	ast.Inspect(cl.Body, func(n ast.Node) bool {
+		if is, ok := n.(*ast.IfStmt); ok {
+			t := strings.Join(strings.Fields(aw.Text(is)), "")
+			if strings.Contains(t, "len(b.flushQueue)") && contains(aw, is.Body, "markFlushFailure") {
+				closeDropSetsFlag = true
+			}
+		}
+		return true
+	})
 	if !contains(aw, cl, "flushBufferLocked") {
 		return fmt.Errorf("ArrowBuffer.Close no longer flushes the remaining buffers")
 	}
@@ -632,8 +676,8 @@ func c07(repo string, out *fg.Out) error {
 	}
 	fmt.Fprintf(&out.Lean, "import Arc.Model.C07\nnamespace Arc.Generated.C07\n")
 	fmt.Fprintf(&out.Lean, "/-- cmd/arc/main.go (maintenance tick, shutdown registrations), internal/shutdown (hooks %s components),\ninternal/ingest/arrow_writer.go (markFlushFailure sites, queue-full return) of the current source -/\n", map[bool]string{true: "before", false: "after"}[hooksFirst])
-	fmt.Fprintf(&out.Lean, "def facts : Arc.C07.Facts :=\n  { tickFlag := %s, tickElse := %s,\n    queueFullSetsFlag := %s, queueFullErrors := %s, queueFullErrorsOnlyNoWal := %s,\n    typedQueueFullErrors := %s, typedQueueFullErrorsOnlyNoWal := %s,\n    workerFailSetsFlag := %s, syncFailSetsFlag := %s,\n    workerTimeoutSetsFlag := %s, syncTimeoutSetsFlag := %s,\n    shutdown := %s }\n",
-		leanList(tickFlag), leanList(tickElse), b(queueFullSetsFlag), b(queueFullErrors), b(onlyNoWal), b(typedErrors), b(typedOnlyNoWal), b(workerFail), b(syncFail), b(workerTimeout), b(syncTimeout), leanList(shutOrder))
+	fmt.Fprintf(&out.Lean, "def facts : Arc.C07.Facts :=\n  { tickFlag := %s, tickElse := %s,\n    queueFullSetsFlag := %s, queueFullErrors := %s, queueFullErrorsOnlyNoWal := %s,\n    typedQueueFullErrors := %s, typedQueueFullErrorsOnlyNoWal := %s,\n    workerFailSetsFlag := %s, syncFailSetsFlag := %s,\n    workerTimeoutSetsFlag := %s, syncTimeoutSetsFlag := %s,\n    closeDropSetsFlag := %s, purgeGuardedByFlag := %s, resetRequiresCleanPass := %s,\n    shutdown := %s }\n",
+		leanList(tickFlag), leanList(tickElse), b(queueFullSetsFlag), b(queueFullErrors), b(onlyNoWal), b(typedErrors), b(typedOnlyNoWal), b(workerFail), b(syncFail), b(workerTimeout), b(syncTimeout), b(closeDropSetsFlag), b(purgeGuarded), b(resetClean), leanList(shutOrder))
 	fmt.Fprintf(&out.Lean, "/-- periodic recovery MinFileAge (ns), safeAge = max(floor, mult * MaxBufferAge) -/\ndef minFileAgeNs : Nat := %d\ndef safeAgeMult : Nat := %d\ndef safeAgeFloorNs : Nat := %d\n", minFileAge, mult, floor)
 	fmt.Fprintf(&out.Lean, "def hooksBeforeComponents : Bool := %s\n", b(hooksFirst))
 	fmt.Fprintf(&out.Lean, "/-- ArrowBuffer write call sites in internal/api whose error becomes a non-2xx reply -/\ndef apiWriteCallersChecked : Nat := %d\n", writeCallers)
@@ -653,6 +697,9 @@ func c07(repo string, out *fg.Out) error {
 	out.JSON["queue_full_sets_flag"] = queueFullSetsFlag
 	out.JSON["queue_full_errors"] = queueFullErrors
 	out.JSON["queue_full_errors_only_nowal"] = onlyNoWal
+	out.JSON["purge_guarded_by_flag"] = purgeGuarded
+	out.JSON["reset_requires_clean_pass"] = resetClean
+	out.JSON["close_drop_sets_flag"] = closeDropSetsFlag
 	out.JSON["typed_queue_full_errors"] = typedErrors
 	out.JSON["typed_queue_full_errors_only_nowal"] = typedOnlyNoWal
 	out.JSON["worker_timeout_sets_flag"] = workerTimeout
